@@ -405,6 +405,13 @@ func (w *Walk) evalD(v ssa.Value, env Env, d int) Val {
 			switch calleeName(&call.Call) {
 			case "fmt.Errorf", "errors.New", "errors.Join":
 				return vNil(false)
+			case "builtin:len":
+				// the length of a nil slice / map / string header is 0
+				if len(call.Call.Args) == 1 {
+					if a := w.evalD(call.Call.Args[0], env, d+1); a.Kind == 2 && a.B {
+						return vInt(0)
+					}
+				}
 			}
 		}
 		return unknown
